@@ -115,6 +115,8 @@ pub enum WOp {
     Analyze(u8, MiniFile, bool),
     Query(u8, u8, u8),
     Close(u8),
+    /// 2001 further fixture-free files are analysed: the file cache passes its limit and evicts
+    Flood,
 }
 
 pub const QUERY_NAMES: [&str; 14] = [
@@ -130,8 +132,21 @@ pub fn wop() -> impl Strategy<Value = WOp> {
     ]
 }
 
+/// workloads of the single-threaded sub-check may also flood the file cache
+pub fn wop_with_flood() -> impl Strategy<Value = WOp> {
+    prop_oneof![30 => wop(), 1 => Just(WOp::Flood)]
+}
+
 pub fn run_op(db: &FixtureDatabase, op: &WOp, executed: &mut BTreeSet<&'static str>) {
     match op {
+        WOp::Flood => {
+            let root = path_of(0);
+            let root = root.trim_end_matches("/conftest.py");
+            for i in 0..2001 {
+                db.analyze_file(PathBuf::from(format!("{}/zz_flood/test_f{}.py", root, i)), "x = 1\n");
+            }
+            executed.insert("cache eviction");
+        }
         WOp::Analyze(p, m, fresh) => {
             run_task(db, &Task { path: *p, text: m.clone(), fresh: *fresh });
             executed.insert(if *fresh { "analyze_file_fresh" } else { "analyze_file" });
@@ -256,6 +271,10 @@ fn check_workload_inner(w: &Workload, info: &mut CaseInfo) -> Outcome {
     let mut fail = None;
     for (i, op) in w.ops.iter().enumerate() {
         hooks::reset_steps();
+        hooks::set_step_limit(if matches!(op, WOp::Flood) { 20_000_000 } else { 200_000 });
+        if matches!(op, WOp::Flood) {
+            info.classes.push("workload floods the file cache".into());
+        }
         let r = std::panic::catch_unwind(std::panic::AssertUnwindSafe(|| run_op(&db, op, &mut executed)));
         if let Err(e) = r {
             let m = e.downcast_ref::<String>().cloned().unwrap_or_else(|| e.downcast_ref::<&str>().map(|s| s.to_string()).unwrap_or_default());
@@ -648,7 +667,7 @@ pub fn check_sess(ctx: &Ctx, s: &Sess, info: &mut CaseInfo) -> Outcome {
 }
 
 pub fn run(ctx: &Ctx) {
-    ctx.run_prop_shrink("workloads", ctx.tier.pick(3000, 100_000), 1, 600, || (vec(wop(), 4..=14), any::<bool>(), prop_oneof![3 => Just(0u8), 1 => Just(1u8), 2 => Just(2u8)]).prop_map(|(ops, collide, disk)| Workload { ops, collide, disk }), |w, info| check_workload(w, info));
+    ctx.run_prop_shrink("workloads", ctx.tier.pick(3000, 100_000), 1, 600, || (vec(wop_with_flood(), 4..=14), any::<bool>(), prop_oneof![3 => Just(0u8), 1 => Just(1u8), 2 => Just(2u8)]).prop_map(|(ops, collide, disk)| Workload { ops, collide, disk }), |w, info| check_workload(w, info));
     let failed = |ctx: &Ctx| !ctx.violations.lock().unwrap().is_empty();
     if !failed(ctx) {
         ctx.run_prop_shrink("schedules", ctx.tier.pick(1500, 40_000), 1, 600, conc, |c, info| check_conc(c, info));
